@@ -17,6 +17,7 @@ import (
 	"sort"
 	"strings"
 	"sync"
+	"syscall"
 	"time"
 
 	"github.com/grafana/cog/internal/ast"
@@ -58,10 +59,12 @@ type explorer struct {
 	mu       sync.Mutex
 	stats    map[string]*opStats // "T (variant)"
 	perT     map[string]*opStats
-	errOn    map[string]string // "T (variant)" -> sample error text, for variants without a target
-	sampleAt map[int]any       // deterministic samples: some depth-1 transitions of seed "tiny"
-	altsUsed map[string]int    // "T: alternative i" -> count (which lenient reading cog follows)
-	deadline time.Time
+	errOn    map[string]string         // "T (variant)" -> sample error text, for variants without a target
+	pipe     map[string]*pipelineStats // pipeline layer, per language
+	sampleAt map[int]any               // deterministic samples: some depth-1 transitions of seed "tiny"
+	altsUsed map[string]int            // "T: alternative i" -> count (which lenient reading cog follows)
+	deadline time.Time                 // wall-clock cap (generous: other work shares the machine)
+	cpuLimit time.Duration             // budget in CPU time of this process: independent of the machine's load
 	timedOut bool
 }
 
@@ -77,6 +80,18 @@ func (e *explorer) stat(o op, f func(s *opStats)) {
 	}
 	f(e.stats[k])
 	f(e.perT[o.T])
+}
+
+func cpuTime() time.Duration {
+	var ru syscall.Rusage
+	if err := syscall.Getrusage(syscall.RUSAGE_SELF, &ru); err != nil {
+		return 0
+	}
+	return time.Duration(ru.Utime.Nano() + ru.Stime.Nano())
+}
+
+func (e *explorer) outOfBudget() bool {
+	return time.Now().After(e.deadline) || cpuTime() > e.cpuLimit
 }
 
 func names(ops []op) []string {
@@ -307,7 +322,7 @@ func (e *explorer) explore(sd seed, fullDepth, maxDepth int) seedResult {
 			go func() {
 				defer wg.Done()
 				for j := range ch {
-					if time.Now().After(e.deadline) {
+					if e.outOfBudget() {
 						e.mu.Lock()
 						e.timedOut = true
 						e.mu.Unlock()
@@ -386,12 +401,14 @@ func main() {
 	// so the smallest witness per kind is what gets reported.
 	r.PerKindSmallest = true
 	sds := seeds()
-	e := &explorer{r: r, stats: map[string]*opStats{}, perT: map[string]*opStats{}, errOn: map[string]string{}, altsUsed: map[string]int{}, sampleAt: map[int]any{}}
-	budget := 100 * time.Second
+	e := &explorer{r: r, stats: map[string]*opStats{}, perT: map[string]*opStats{}, errOn: map[string]string{}, altsUsed: map[string]int{}, sampleAt: map[int]any{}, pipe: map[string]*pipelineStats{}}
+	// Budgets are counted in CPU time of this process (quick: 100 s wall on
+	// 16 cores), so that a loaded machine does not cut the enumeration short;
+	// the wall-clock cap only guards against a stall.
+	e.cpuLimit, e.deadline = 1600*time.Second, time.Now().Add(25*time.Minute)
 	if r.Thorough() {
-		budget = 17 * time.Minute
+		e.cpuLimit, e.deadline = 16*17*time.Minute, time.Now().Add(3*time.Hour)
 	}
-	e.deadline = time.Now().Add(budget)
 
 	if r.Replay != "" {
 		replay(r, e, sds)
@@ -408,12 +425,23 @@ func main() {
 		order[i] = (i + r.Seed) % len(sds)
 	}
 	perSeed := map[string]any{}
+	pipeTransitions := 0
 	states, transitions, depth := 0, 0, 0
 	minAlpha, maxAlpha, maxReduced := 1<<30, 0, 0
 	exhaustive := true
 	for _, i := range order {
 		sd := sds[i]
 		res := e.explore(sd, fullDepth, maxDepth)
+		pipeDepth := 1
+		if r.Thorough() {
+			pipeDepth = 2
+		}
+		pt := e.explorePipeline(sd, pipeDepth)
+		pipeTransitions += pt
+		res.transitions += pt
+		if e.timedOut {
+			res.complete = false
+		}
 		states += res.states
 		transitions += res.transitions
 		if res.depth > depth {
@@ -481,6 +509,9 @@ func main() {
 		"operation_classes_with_a_target_that_never_changed_anything": vacuous,
 		"errors_returned_for_missing_targets":                         errList,
 		"lenient_alternative_followed":                                e.altsUsed,
+		"pipeline_layer_transitions":                                  pipeTransitions,
+		"pipeline_layer_per_language":                                 e.pipe,
+		"pipeline_layer":                                              "every operation of the seed's alphabet as final pass of codegen.Pipeline.ContextForLanguage for no language and the 7 output languages (thorough: also pairs, reduced alphabet first); the last final pass is judged by its model applied to cog's own result of the chain without it",
 		"how_run":                                                     "each operation is YAML text loaded by internal/yaml.CompilerLoader (library passes: cog.PrefixObjectsNames / cog.AppendCommentToObjects); a sequence is run as one compiler.Passes{...}.Process(seed) call, as cog does",
 	}, []string{
 		"states are deduplicated by refl.Canon of the ast.Schemas (PassesTrail included); a state is expanded through the first (shortest, alphabet-ordered) sequence that reaches it",
@@ -500,6 +531,7 @@ func replay(r *vx.Run, e *explorer, sds []seed) {
 	kind, wit, detail := r.ReplayFile()
 	var d struct {
 		Seed string   `json:"seed"`
+		Lang string   `json:"lang"`
 		Ops  []string `json:"ops"`
 		Kind string   `json:"kind"`
 	}
@@ -530,14 +562,26 @@ func replay(r *vx.Run, e *explorer, sds []seed) {
 		if !ok {
 			vx.Fatalf("unknown operation %q for seed %s", n, sd.Name)
 		}
-		s, err, pan := runChain(*sd, prefix)
+		var s ast.Schemas
+		var err error
+		var pan any
+		if d.Lang != "" {
+			s, err, pan = runPipeline(*sd, d.Lang, prefix)
+		} else {
+			s, err, pan = runChain(*sd, prefix)
+		}
 		if err != nil || pan != nil {
 			fmt.Printf("  prefix fails: err=%v panic=%v\n", err, pan)
 			break
 		}
 		pre := fromAST(s)
 		fmt.Printf("  step %d: %s\n", i+1, n)
-		_, kinds := e.transition(*sd, prefix, pre, canonState(normalise(pre, normOpts{})), o, idx[n], true)
+		var kinds []string
+		if d.Lang != "" {
+			kinds = e.pipelineTransition(*sd, d.Lang, prefix, pre, canonState(normalise(pre, normOpts{})), o, idx[n], true)
+		} else {
+			_, kinds = e.transition(*sd, prefix, pre, canonState(normalise(pre, normOpts{})), o, idx[n], true)
+		}
 		if i == len(d.Ops)-1 {
 			for _, k := range kinds {
 				if k == kind {
